@@ -8,7 +8,20 @@ import tempfile
 import numpy as np
 
 SEED_FORMS = ["cpu_kw", "gpu_true", "positional", "defaults"]
-READ_ONLY = {"sample", "sample_cont", "statistics", "apply", "metrics", "rotate", "gradient", "save", "psi"}
+READ_ONLY = {"sample", "sample_cont", "statistics", "apply", "metrics", "rotate", "gradient", "save", "psi", "refused"}
+
+
+class GlobalConfigLeak(RuntimeError):
+    """a library operation left process-wide torch / numpy configuration changed"""
+
+
+def global_config():
+    import torch
+
+    return {"torch default dtype": str(torch.get_default_dtype()), "grad enabled": torch.is_grad_enabled(),
+            "deterministic algorithms": torch.are_deterministic_algorithms_enabled(),
+            "numpy errstate": tuple(sorted(np.geterr().items())),
+            "numpy print precision": np.get_printoptions().get("precision")}
 
 
 def make_spec(rng, hid, seed_value):
@@ -16,7 +29,7 @@ def make_spec(rng, hid, seed_value):
     nv = int(rng.integers(3, 5))
     ops = ["construct"]
     pool = ["reinit", "sample", "sample_cont", "statistics", "apply", "metrics", "rotate", "gradient", "save", "fit", "psi", "fit",
-            "setparams", "fit_cb"]
+            "setparams", "fit_cb", "refused"]
     n = int(rng.integers(5, 10))
     for _ in range(n):
         ops.append(pool[int(rng.integers(0, len(pool)))])
@@ -72,6 +85,7 @@ def run_history(spec, perturb=None, hooks=None):
             qucumber.set_random_seed(spec["seed"], True, True, True)
         else:
             qucumber.set_random_seed(spec["seed"])
+    cfg0 = global_config()
     for i, op in enumerate(spec["ops"]):
         if perturb is not None:
             perturb(i)
@@ -158,8 +172,42 @@ def run_history(spec, perturb=None, hooks=None):
                    callbacks=[ev, es], **kw)
             st._stop_training = False
             d = digest([params_digest(st), [int(e) for e in ev.epochs], [float(v) for v in ev["s"]] if len(ev) else []])
+        elif op == "refused":
+            # calls the library refuses (invalid arguments): an error path must leave the model, the random stream and the
+            # process-wide configuration exactly as they were
+            from qucumber.observables import SigmaX as _SX, SigmaZ as _SZ
+            from qucumber.utils import cplx as _cplx
+
+            fd, path = tempfile.mkstemp(suffix=".pt", dir="/var/tmp")
+            os.close(fd)
+            attempts = [lambda: unitaries.create_dict(Q=[[1.0, 2.0], [3.0]]), lambda: unitaries.create_dict(Q=None),
+                        lambda: unitaries.create_dict(Q=[[1.0, 0.0], [0.0, "a"]]),
+                        lambda: st.save(path, {"rbm_am": 1}), lambda: _SX() * _SZ(), lambda: setattr(st, "stop_training", "yes"),
+                        lambda: st.generate_hilbert_space(size=st.max_size + 1),
+                        lambda: _cplx.inner_prod(torch.zeros(2, 3, dtype=torch.double), torch.zeros(2, 2, 2, dtype=torch.double)),
+                        lambda: st.load(path + ".does-not-exist")]
+            if kind != "positive":
+                attempts.append(lambda: st.fit(torch.tensor(rows, dtype=torch.double), epochs=1, pos_batch_size=2))
+            refused = 0
+            try:
+                for f_ in attempts:
+                    try:
+                        f_()
+                    except Exception:  # noqa: BLE001
+                        refused += 1
+            finally:
+                if os.path.exists(path):
+                    os.unlink(path)
+            st._stop_training = False
+            d = digest([params_digest(st), refused])
         else:
             raise ValueError(op)
+        cfg1 = global_config()
+        if cfg1 != cfg0:
+            changed = {k: (cfg0[k], cfg1[k]) for k in cfg0 if cfg0[k] != cfg1[k]}
+            torch.set_default_dtype(torch.float32 if "float32" in cfg0["torch default dtype"] else torch.float64)
+            torch.set_grad_enabled(cfg0["grad enabled"])
+            raise GlobalConfigLeak(f"operation {i} ({op}) left process-wide configuration changed: {changed}")
         if hooks is not None and st is not None:
             hooks.after(op, st)
         out.append([op, d])
